@@ -192,14 +192,14 @@ func groupFiles(files []*HarnessFile) []*Group {
 }
 
 type Loaded struct {
-	prog       *ssa.Program
-	hpkg       *ssa.Package
-	harnesses  []*ssa.Function
+	prog         *ssa.Program
+	hpkg         *ssa.Package
+	harnesses    []*ssa.Function
 	allHarnesses []*ssa.Function
-	intercepts map[string]*ssa.Function
-	loadS      float64
-	overlay    map[string]string // virtual path -> real path (for native runs)
-	pkgDir     string
+	intercepts   map[string]*ssa.Function
+	loadS        float64
+	overlay      map[string]string // virtual path -> real path (for native runs)
+	pkgDir       string
 }
 
 func (g *Group) overlayFiles(scratch string) (map[string]string, error) {
